@@ -143,8 +143,15 @@ pub fn date_of_day(day: i64) -> jiff::civil::Date {
     jiff::civil::Date::new(y as i16, m as i8, d as i8).expect("valid date")
 }
 
+/// Day number of a jiff date. An *invalid* date (e.g. Feb 29 of a common
+/// year, which a defective jiff could hand out) maps to a sentinel so that it
+/// can never compare equal to a model value.
 pub fn day_of_date(d: jiff::civil::Date) -> i64 {
-    cal::days_from_civil(d.year() as i64, d.month() as i64, d.day() as i64)
+    let (y, m, dd) = (d.year() as i64, d.month() as i64, d.day() as i64);
+    if !cal::valid(y, m, dd) {
+        return i64::MIN / 4 + y * 512 + m * 32 + dd;
+    }
+    cal::days_from_civil(y, m, dd)
 }
 
 pub fn time_of_nod(nod: i64) -> jiff::civil::Time {
@@ -153,5 +160,9 @@ pub fn time_of_nod(nod: i64) -> jiff::civil::Time {
 }
 
 pub fn nod_of_time(t: jiff::civil::Time) -> i64 {
+    let ok = (0..24).contains(&t.hour()) && (0..60).contains(&t.minute()) && (0..60).contains(&t.second()) && (0..1_000_000_000).contains(&t.subsec_nanosecond());
+    if !ok {
+        return i64::MIN / 4;
+    }
     ((t.hour() as i64 * 60 + t.minute() as i64) * 60 + t.second() as i64) * 1_000_000_000 + t.subsec_nanosecond() as i64
 }
